@@ -9,6 +9,7 @@
 // (c) the writable, non-RELRO segments of the plain shared object are checksummed
 //     before the first call and after every workload: they must never change.
 #include <dlfcn.h>
+#include <sys/mman.h>
 #include <link.h>
 #include <sched.h>
 #include <atomic>
@@ -49,23 +50,75 @@ static void *be_malloc(UriMemoryManager *, size_t n) { return malloc(n); }
 static void *be_realloc(UriMemoryManager *, void *p, size_t n) { return realloc(p, n); }
 static void be_free(UriMemoryManager *, void *p) { free(p); }
 
+// Everything the threads share as read-only input lives in one arena of its own pages: the URI structures, their path
+// nodes and host data (allocated by the library through the arena's manager), the texts they were parsed from, the query
+// list and the backend manager. Once set up the arena is switched to PROT_READ for the single-threaded expectation phase
+// and for the concurrent phase: a write into a shared input faults even if it stores the value that is already there
+// (which no before/after comparison can see, and which is a data race all the same).
+struct Arena {
+  char *base = nullptr;
+  size_t size = 0, used = 0;
+  UriMemoryManager mm;
+  Arena() {
+    size = (size_t)4 << 20;
+    base = (char *)mmap(nullptr, size, PROT_READ | PROT_WRITE, MAP_PRIVATE | MAP_ANONYMOUS, -1, 0);
+    if (base == MAP_FAILED) abort();
+    mm.malloc = &s_malloc; mm.calloc = &s_calloc; mm.realloc = &s_realloc; mm.reallocarray = &s_reallocarray; mm.free = &s_free; mm.userData = this;
+  }
+  ~Arena() { munmap(base, size); }
+  Arena(const Arena &) = delete;
+  void *alloc(size_t n) {
+    size_t need = ((n + 15) & ~(size_t)15) + 16;
+    if (used + need > size) { errno = ENOMEM; return nullptr; }
+    char *p = base + used;
+    *(size_t *)p = n;
+    used += need;
+    return p + 16;
+  }
+  void protect(bool ro) { mprotect(base, size, ro ? PROT_READ : (PROT_READ | PROT_WRITE)); }
+  static void *s_malloc(UriMemoryManager *m, size_t n) { return ((Arena *)m->userData)->alloc(n); }
+  static void *s_calloc(UriMemoryManager *m, size_t a, size_t b) { void *p = ((Arena *)m->userData)->alloc(a * b); if (p) memset(p, 0, a * b); return p; }
+  static void *s_realloc(UriMemoryManager *m, void *old, size_t n) {
+    void *p = ((Arena *)m->userData)->alloc(n);
+    if (p && old) { size_t o = *(size_t *)((char *)old - 16); memcpy(p, old, o < n ? o : n); }
+    return p;
+  }
+  static void *s_reallocarray(UriMemoryManager *m, void *old, size_t a, size_t b) { return s_realloc(m, old, a * b); }
+  static void s_free(UriMemoryManager *, void *) {}
+};
+
 template <class A> struct Shared {
   using Ch = typename A::Ch;
-  std::basic_string<Ch> baseT, srcT, refT, queryT, textT;
-  typename A::Uri base, src, ref;
-  typename A::QL *ql = nullptr;
-  // a backend manager (malloc / realloc / free only) that every thread completes its own manager from: an input, never written
-  UriMemoryManager backend;
+  std::basic_string<Ch> baseT, srcT, refT, queryT, textT;  // the threads' own copies are made from these
+  Arena arena;  // (declared before everything that lives in it)
+  struct InArena {
+    typename A::Uri base, src, ref;
+    typename A::QL *ql;
+    // a backend manager (malloc / realloc / free only) that every thread completes its own manager from: an input, never written
+    UriMemoryManager backend;
+  } *in = nullptr;
+  typename A::Uri &base, &src, &ref;
+  typename A::QL *&ql;
+  UriMemoryManager &backend;
+  const Ch *queryA = nullptr, *textA = nullptr;  // the query and the plain text inside the arena
   bool ok = false;
-  ~Shared() { if (ok) { A::FreeUriMembers(&base); A::FreeUriMembers(&src); A::FreeUriMembers(&ref); A::FreeQueryList(ql); } }
+  Shared() : in((InArena *)arena.alloc(sizeof(InArena))), base(in->base), src(in->src), ref(in->ref), ql(in->ql), backend(in->backend) { memset(in, 0, sizeof *in); }
+  ~Shared() { arena.protect(false); }  // the arena's free is a no-op: the mapping goes away as a whole
+  const Ch *put(const std::basic_string<Ch> &s) {
+    Ch *p = (Ch *)arena.alloc((s.size() + 1) * sizeof(Ch));
+    memcpy(p, s.c_str(), (s.size() + 1) * sizeof(Ch));
+    return p;
+  }
   bool init(const Fields &f) {
     baseT = widen<Ch>(f.get("base")); srcT = widen<Ch>(f.get("src")); refT = widen<Ch>(f.get("ref")); queryT = widen<Ch>(f.get("query")); textT = widen<Ch>(f.get("text"));
     const Ch *ep;
-    if (A::ParseSingleUri(&base, baseT.c_str(), &ep) != 0) return false;
-    if (A::ParseSingleUri(&src, srcT.c_str(), &ep) != 0) { A::FreeUriMembers(&base); return false; }
-    if (A::ParseSingleUri(&ref, refT.c_str(), &ep) != 0) { A::FreeUriMembers(&base); A::FreeUriMembers(&src); return false; }
+    const Ch *b = put(baseT), *s = put(srcT), *r = put(refT);
+    queryA = put(queryT); textA = put(textT);
+    if (A::ParseSingleUriExMm(&base, b, b + baseT.size(), &ep, &arena.mm) != 0) return false;
+    if (A::ParseSingleUriExMm(&src, s, s + srcT.size(), &ep, &arena.mm) != 0) return false;
+    if (A::ParseSingleUriExMm(&ref, r, r + refT.size(), &ep, &arena.mm) != 0) return false;
     int cnt;
-    if (A::DissectQueryMalloc(&ql, &cnt, queryT.data(), queryT.data() + queryT.size()) != 0) { A::FreeUriMembers(&base); A::FreeUriMembers(&src); A::FreeUriMembers(&ref); return false; }
+    if (A::DissectQueryMallocExMm(&ql, &cnt, queryA, queryA + queryT.size(), URI_TRUE, URI_BR_DONT_TOUCH, &arena.mm) != 0) return false;
     memset(&backend, 0, sizeof backend);
     backend.malloc = &be_malloc; backend.realloc = &be_realloc; backend.free = &be_free;
     ok = true;
@@ -88,8 +141,8 @@ template <class A> static std::string do_op(const Shared<A> &S, char op, LedgerM
     case 'd': { int n = -1; A::ToStringCharsRequired(&S.base, &n); return std::to_string(n) + ":" + text_of<A>(S.base); }
     case 'e': { unsigned m = 0; A::NormalizeSyntaxMaskRequiredEx(&S.src, &m); return std::to_string(m) + "/" + std::to_string(A::NormalizeSyntaxMaskRequired(&S.base)); }
     case 'f': { Ch *s = nullptr; int rc = A::ComposeQueryMalloc(&s, S.ql); std::string r = std::to_string(rc); if (rc == 0) { size_t l = 0; while (s[l]) l++; r += narrow<Ch>(s, s + l); free(s); } return r; }
-    case 'g': { std::vector<Ch> out(6 * S.textT.size() + 1); Ch *e = A::Escape(S.textT.c_str(), out.data(), URI_TRUE, URI_TRUE); return narrow<Ch>(out.data(), e); }
-    case 'h': { std::vector<Ch> out(8 + 3 * S.textT.size() + 1); A::WindowsFilenameToUriString(S.textT.c_str(), out.data()); size_t l = 0; while (out[l]) l++; return narrow<Ch>(out.data(), out.data() + l); }
+    case 'g': { std::vector<Ch> out(6 * S.textT.size() + 1); Ch *e = A::Escape(S.textA, out.data(), URI_TRUE, URI_TRUE); return narrow<Ch>(out.data(), e); }
+    case 'h': { std::vector<Ch> out(8 + 3 * S.textT.size() + 1); A::WindowsFilenameToUriString(S.textA, out.data()); size_t l = 0; while (out[l]) l++; return narrow<Ch>(out.data(), out.data() + l); }
     case 'i': {  // private: parse -> normalise -> text
       typename A::Uri u; const Ch *ep;
       std::basic_string<Ch> copy = S.srcT;
@@ -108,7 +161,7 @@ template <class A> static std::string do_op(const Shared<A> &S, char op, LedgerM
       A::FreeUriMembers(&u);
       return r;
     }
-    case 'k': { typename A::QL *q = nullptr; int cnt = -1; int rc = A::DissectQueryMallocEx(&q, &cnt, S.queryT.data(), S.queryT.data() + S.queryT.size(), URI_TRUE, URI_BR_TO_LF); A::FreeQueryList(q); return std::to_string(rc) + ":" + std::to_string(cnt); }
+    case 'k': { typename A::QL *q = nullptr; int cnt = -1; int rc = A::DissectQueryMallocEx(&q, &cnt, S.queryA, S.queryA + S.queryT.size(), URI_TRUE, URI_BR_TO_LF); A::FreeQueryList(q); return std::to_string(rc) + ":" + std::to_string(cnt); }
     case 'l': { typename A::Uri d; int rc = A::AddBaseUriEx(&d, &S.src, &S.base, URI_RESOLVE_IDENTICAL_SCHEME_COMPAT); std::string r = std::to_string(rc) + ":" + (rc == 0 ? text_of<A>(d) : ""); A::FreeUriMembers(&d); return r; }
     case 'n': {  // complete a private manager from the shared backend and use it once
       UriMemoryManager mine;
@@ -158,6 +211,8 @@ template <class A> static Verdict run_workload(const Fields &f, int *sharedOps) 
   if (f.geti("handedit")) for (typename A::Uri *u : {&S.base, &S.src, &S.ref}) if (u->hostText.first != nullptr) u->absolutePath = URI_TRUE;
   const std::string frozenBase0 = freeze<A>(S.base), frozenSrc0 = freeze<A>(S.src), frozenRef0 = freeze<A>(S.ref);
   const UriMemoryManager backend0 = S.backend;
+  S.arena.protect(true);  // from here on the shared inputs are read-only memory
+  stats().hit("shared_inputs_in_read_only_pages");
   int T = (int)f.geti("threads");
   std::vector<std::string> lists((size_t)T);
   for (int i = 0; i < T; i++) lists[(size_t)i] = f.get("ops." + std::to_string(i));
